@@ -25,7 +25,7 @@ PARALLEL = 12
 GROUP = 1
 BOUND = 90
 
-LITERALS = ['nl', 'header', 'header2', 'empty', 'zero', 'false', 'estr', 'elist', 'edict', 'fzero', 'etuple', 'str-nl', 'unicode']
+LITERALS = ['nl', 'header', 'header2', 'empty', 'zero', 'false', 'estr', 'elist', 'edict', 'fzero', 'etuple', 'str-nl', 'unicode', 'surrogate', 'strsub', 'bytessub', 'true', 'none-in-list']
 
 
 def gen_cases(tier, seed):
@@ -136,9 +136,13 @@ def run_socket(case):
                         mode = 'tagged'
                         if not fail and spec[0] == 'literal' and hash(tag) % 3 == 0:
                             mode = 'raw'
+                        elif not fail and (spec[0] in ('literal', 'str') or (spec[0] == 'bytes' and spec[1] <= 70000)) and hash(tag) % 3 == 1:
+                            mode = 'echo'  # the response IS the payload: it must come back intact, type included
                         try:
                             if mode == 'raw':
                                 y = client.request('/raw', payload, response_timeout=60)
+                            elif mode == 'echo':
+                                y = client.request('/echo', payload, response_timeout=15)
                             else:
                                 y = client.request('/tagged', (tag, lat, fail, payload), response_timeout=15 if fail else 60)
                         except BaseException as e:  # noqa: BLE001
@@ -148,7 +152,14 @@ def run_socket(case):
                             obs['bytes_sent'] += dg[1]
                             obs['max_payload'] = max(obs['max_payload'], dg[1])
                             order_log.append(tag)
-                            if mode == 'raw':
+                            if mode == 'echo':
+                                obs['echo_requests'] = obs.get('echo_requests', 0) + 1
+                                if isinstance(y, BaseException):
+                                    mech = 'socket/lost-response' if isinstance(y, TimeoutError) else 'socket/unexpected-error'
+                                    viol.append({'mech': mech, 'msg': f'echo of {spec!r} got {y!r}'[:300]})
+                                elif type(y) is not type(payload) or targets.digest(y) != dg:
+                                    viol.append({'mech': 'socket/response-not-intact', 'msg': f'echo of {spec!r} ({type(payload).__name__}) came back as {type(y).__name__} {str(y)[:60]!r}'})
+                            elif mode == 'raw':
                                 if not isinstance(y, tuple) or tuple(y) != dg:
                                     viol.append({'mech': 'socket/payload-corrupted', 'msg': f'raw payload {spec!r}: handler saw {y!r}, sent {dg!r}'[:300]})
                             elif fail:
